@@ -199,8 +199,16 @@ def _one(rng, fam, mon, sigs, hist):
                     fm.set_velocity_matrix(mesh, **kw)
             except Exception as exc:
                 import traceback
-                mon.fail("rhs-raises", "the velocity term can be assembled", exc=repr(exc)[:200], t=t,
-                         tb=traceback.format_exc()[-400:])
+                fm_ = solver.force_matrices.get(t)
+                at_rest = fm_ is not None and all(not np.any(np.asarray(mesh.calculate_velocity(v_, t)) != 0)
+                                                  for v_ in fm_.map_vid_to_row)
+                if at_rest and isinstance(exc, FloatingPointError):
+                    # every used junction has velocity zero: the mean junction speed is zero and the adimensional
+                    # velocity is undefined (0/0); outside the property's domain, counted only
+                    hist["zero-mean-speed"] = hist.get("zero-mean-speed", 0) + 1
+                else:
+                    mon.fail("rhs-raises", "the velocity term can be assembled", exc=repr(exc)[:200], t=t,
+                             tb=traceback.format_exc()[-400:])
             CTX.pop("cur", None)
         # system velocity per frame
         try:
@@ -214,7 +222,13 @@ def _one(rng, fam, mon, sigs, hist):
                     mon.fail("system-velocity", "the frame's system velocity is the mean junction speed", t=t, got=float(sysv[t]),
                              ref=ref)
         except Exception as exc:
-            mon.fail("system-velocity-raises", "system velocity per frame", exc=repr(exc)[:200])
+            rest = any(fm2 is not None and len(fm2.map_vid_to_row) > 0 and
+                       all(not np.any(np.asarray(mesh.calculate_velocity(v_, t2)) != 0) for v_ in fm2.map_vid_to_row)
+                       for t2, fm2 in solver.force_matrices.items())
+            if rest and isinstance(exc, FloatingPointError):
+                hist["zero-mean-speed"] = hist.get("zero-mean-speed", 0) + 1
+            else:
+                mon.fail("system-velocity-raises", "system velocity per frame", exc=repr(exc)[:200])
     if cap.unraisable:
         mon.fail("unraisable", "no destructor raises", events=cap.unraisable[:2])
     hist["times:" + tp] = hist.get("times:" + tp, 0) + 1
